@@ -66,3 +66,25 @@ Theorem C18_as_f64_views_are_flocq :
   end.
 Proof. exact as_f64_is_flocq. Qed.
 Print Assumptions C18_as_f64_views_are_flocq.
+
+(* the model's reading of a Float64 bit pattern (sign, NaN, infinities, exact value scaled by 2^1074), on which the order of
+   numbers is defined, is Flocq's reading of the same pattern *)
+Theorem C18_float_reading_is_flocq :
+  forall b : N,
+  let f := b64_of_bits (Z.of_N b) in
+  Bsign 53 1024 f = f_sign b /\
+  match f_ext b with
+  | ENaN => is_nan 53 1024 f = true
+  | EPosInf => f = B754_infinity 53 1024 false
+  | ENegInf => f = B754_infinity 53 1024 true
+  | EFin z => is_finite 53 1024 f = true /\ B2R 53 1024 f = (IZR z * bpow radix2 (-1074))%R
+  end.
+Proof. exact f_ext_is_flocq. Qed.
+Print Assumptions C18_float_reading_is_flocq.
+
+(* "ordered by that value": on finite numbers the order is the order of the real numbers denoted (integers as themselves,
+   Float64 through Flocq's B2R) *)
+Theorem C18_order_is_real_order :
+  forall a b va vb, scaled a = EFin va -> scaled b = EFin vb -> num_cmp a b = Rcompare (num_R a) (num_R b).
+Proof. exact num_cmp_is_real_order. Qed.
+Print Assumptions C18_order_is_real_order.
